@@ -96,9 +96,13 @@ type Replay struct {
 	Minimised bool      `json:"minimised"`
 	OrigLen   int       `json:"original_tape_len"`
 	Race      bool      `json:"race,omitempty"`
-	RepoHead  string    `json:"repo_head"`
-	GoVersion string    `json:"go_version"`
-	HowTo     string    `json:"how_to_replay"`
+	// BySeed: no choice tape could be recorded (the worker process crashed,
+	// or hung on a lock); the run is repeated from its seed, which decides
+	// the same choices.
+	BySeed    bool   `json:"by_seed,omitempty"`
+	RepoHead  string `json:"repo_head"`
+	GoVersion string `json:"go_version"`
+	HowTo     string `json:"how_to_replay"`
 }
 
 type KnownFinding struct {
@@ -649,7 +653,13 @@ func doReplay(path string) int {
 		fatal2("replay file: %v", err)
 	}
 	bin := buildWorker(rp.Race)
-	res, ok := replayOnce(bin, rp.Scenario, rp.Tier, rp.Seed, rp.Case, rp.Tape)
+	var res Result
+	var ok bool
+	if rp.BySeed || len(rp.Tape) == 0 {
+		res, ok = replayBySeed(bin, rp.Scenario, rp.Tier, rp.Seed, rp.Case)
+	} else {
+		res, ok = replayOnce(bin, rp.Scenario, rp.Tier, rp.Seed, rp.Case, rp.Tape)
+	}
 	if !ok {
 		fmt.Println("REPLAY-DIVERGED: the worker produced no result")
 		return 2
@@ -969,7 +979,7 @@ func check(prop, tier string) int {
 		if res.Tape == nil {
 			res.Tape = []uint32{}
 		}
-		rp := Replay{Property: prop, Scenario: res.Scen, Tier: tier, Seed: res.Seed, Case: res.Case, Tape: res.Tape,
+		rp := Replay{Property: prop, Scenario: res.Scen, Tier: tier, Seed: res.Seed, Case: res.Case, Tape: res.Tape, BySeed: len(res.Tape) == 0,
 			Signature: v, LogHash: res.LogHash, Trace: res.Trace, Minimised: minimised, OrigLen: orig, Race: race,
 			RepoHead: head, GoVersion: gov, HowTo: "cd /verif && ./simcheck.sh --replay " + path}
 		writeJSON(path, rp)
@@ -994,6 +1004,29 @@ func isRace(phases []phase, scen string) bool {
 		}
 	}
 	return false
+}
+
+// replayBySeed repeats one run from its seed in a fresh worker process and
+// returns its result, also when the worker crashes or hangs.
+func replayBySeed(bin, scen, tier string, seed uint64, cs int) (Result, bool) {
+	a := Args{Scen: scen, Tier: tier, Trace: true, HangMs: 1500}
+	if cs >= 0 {
+		a.CaseFrom, a.CaseCount, a.CaseSeed = cs, 1, seed
+	} else {
+		a.From, a.Count = seed, 1
+	}
+	wo := runWorker(bin, a, 3*time.Minute)
+	if len(wo.results) > 0 {
+		return wo.results[len(wo.results)-1], true
+	}
+	if wo.died && wo.started != nil {
+		if v, ok := crashViolation(wo); ok {
+			r := *wo.started
+			r.Type, r.OK, r.Viol = "run", false, []Violation{v}
+			return r, true
+		}
+	}
+	return Result{}, false
 }
 
 func rerunSeed(bin string, r Result, tier string) (Result, bool) {
